@@ -463,7 +463,7 @@ type Sig = [Obs; 2];
 const GOFF: u64 = 0x0005_A5A5_A5A5_A000;
 const KMAX: u32 = 10; // trailing-ones classes 0..KMAX-1 individually, >= KMAX as one tail class
 const TWO64: f64 = 18446744073709551616.0;
-const NRAND: u64 = 8; // random continuations per piece validation
+const NRAND: u64 = 4; // random continuations per piece validation
 
 #[derive(Default, Clone, Copy)]
 struct Counters {
@@ -764,7 +764,7 @@ impl<'a> Ex<'a> {
                     // far end, middle, and (for small subtrees) the probe grid inside the piece: guards against
                     // a hidden stretch of different behaviour whose two continuations look alike
                     let mut tws: Vec<u64> = vec![last, mid];
-                    let extra = (600 / lv.len().max(1)).min(16);
+                    let extra = (240 / lv.len().max(1)).min(6);
                     let inside: Vec<u64> = pts.iter().cloned().filter(|g| *g > s && (*g as u128) < end).collect();
                     if !inside.is_empty() && extra > 0 {
                         let stride = (inside.len() + extra - 1) / extra;
@@ -882,7 +882,17 @@ impl<'a> Ex<'a> {
                     continue;
                 }
                 // all leaves at the two ends and in the middle, the two continuations elsewhere
-                let mut bad = if i < 3 { self.disagrees(pre, *wd, &node_leaves) } else if Self::looks_retry(&self.sig(pre, *wd), &base) { None } else { Some(usize::MAX) };
+                // representative: up to 64 of the node's leaves; far end and middle: up to 16; elsewhere the two continuations
+                let cap = if i == 0 { 64 } else { 16 };
+                let stride = (node_leaves.len() + cap - 1) / cap;
+                let subset: Vec<(Vec<u64>, u32)> = node_leaves.iter().step_by(stride.max(1)).cloned().collect();
+                let mut bad = if i < 3 {
+                    self.disagrees(pre, *wd, &subset).map(|x| x * stride.max(1))
+                } else if Self::looks_retry(&self.sig(pre, *wd), &base) {
+                    None
+                } else {
+                    Some(usize::MAX)
+                };
                 if bad.is_none() && i < 3 {
                     // a true retry can be repeated any number of times (a loop with a hidden counter cannot)
                     for reps in [2usize, 13] {
@@ -1407,8 +1417,17 @@ fn run_system(mode: &str, sys: &dyn Sys, a: &Args, tally: &mut Tally) {
     let t0 = std::time::Instant::now();
     let mut intern = Interner::default();
     let mc = if a.thorough { 48 } else { 24 };
-    let r = measure(sys, &mut intern, 20000, mc, a.seed);
+    let mut r = measure(sys, &mut intern, 20000, mc, a.seed);
     let ks = sys.kernels();
+    // confirm before raising an alarm: a violation is only reported if it persists when every row of the kernel is
+    // re-measured and validated against many more random streams (an unsound draw tree must not become a false alarm)
+    if let Ok(m) = &r {
+        if (0..ks.len()).any(|k| oracle(sys, &intern, m, k).is_err()) {
+            stat("kern_confirmation_runs", 1);
+            intern = Interner::default();
+            r = measure(sys, &mut intern, 20000, 600, a.seed.wrapping_add(0x51ED));
+        }
+    }
     match r {
         Err(why) => {
             // the draw structure could not be resolved soundly: no verdict
